@@ -62,7 +62,7 @@ func TestVerifC18ConnectError(t *testing.T) {
 	rep := verifkit.Begin("C18", "connect-error", "random errors (codes 1..16, UTF-8 messages, 0-3 details incl. unknown fields, non-minimal varints and reversed field order) through proto -> connect.Error -> proto (ConvertProtoToConnectError / ConvertConnectToProtoError / ConvertErrorToProtoError); distinct = error values")
 	defer rep.Write()
 	rng := verifkit.Stream("c18connerr")
-	n := verifkit.Scale(20000, 400000)
+	n := verifkit.Scale(20000, 2000000)
 	for i := 0; i < n; i++ {
 		e := &conformancev1.Error{Code: conformancev1.Code(1 + rng.Intn(16))}
 		if rng.Chance(5, 6) {
@@ -129,7 +129,7 @@ func TestVerifC18Headers(t *testing.T) {
 	rep := verifkit.Begin("C18", "headers", "random header lists through AddHeaders/AddTrailers -> http.Header -> ConvertToProtoHeader; law: every key kept up to case, values in order, repeated keys merged; distinct = header lists")
 	defer rep.Write()
 	rng := verifkit.Stream("c18hdr")
-	n := verifkit.Scale(20000, 300000)
+	n := verifkit.Scale(20000, 1500000)
 	for i := 0; i < n; i++ {
 		var hs []*conformancev1.Header
 		want := map[string][]string{}
@@ -213,7 +213,7 @@ func TestVerifC18Codecs(t *testing.T) {
 	rep := verifkit.Begin("C18", "codecs", "random conformance messages through StrictProtoCodec and StrictJSONCodec: Unmarshal(Marshal(m)) == m, MarshalAppend keeps the prefix, MarshalStable deterministic and decodable, a message with an appended unknown field / JSON key is rejected; distinct = (codec, message)")
 	defer rep.Write()
 	rng := verifkit.Stream("c18codec")
-	n := verifkit.Scale(5000, 100000)
+	n := verifkit.Scale(5000, 500000)
 	codecs := []vfStrictCodec{StrictProtoCodec{}, StrictJSONCodec{}}
 	// encodings handed out earlier must stay intact while later ones are produced (no shared buffers)
 	type held struct {
